@@ -1,5 +1,6 @@
 import Tengo.Props.C20
 import Tengo.Props.C20Bytes
+import Tengo.Props.C20Bytes2
 /-! C20: the token-level theorems (`C20`: token tables, semicolon rule, integer literal values, precedence
-climbing, token-level parse ∘ print) and the byte-level composition scanner ∘ printer ∘ parser (`C20Bytes`), as
-one module for the checker. -/
+climbing, token-level parse ∘ print) and the byte-level composition scanner ∘ printer ∘ parser (`C20Bytes`; `C20Bytes2`: literal operands and
+postfix chains), as one module for the checker. -/
